@@ -1,10 +1,741 @@
 package main
 
-// tryReplay attempts to turn a solver model into concrete inputs and run the
-// real function on them (see replaygen.go). Until a harness exists for the
-// function shape, the model is attached and the violation is reported without
-// a failing input.
+import (
+	"encoding/json"
+	"fmt"
+	"go/types"
+	"math"
+	"os"
+	"os/exec"
+	"path/filepath"
+	"regexp"
+	"strconv"
+	"strings"
+
+	"golang.org/x/tools/go/ssa"
+)
+
+// Replay of a counterexample against the real code.
+//
+// Scope: clause obligations (post / refines) of functions and methods whose
+// receiver, parameters and results are machine scalars, tokens, errors, or
+// Tengo scalar objects (*Int, *Float, *Char, *Bool, *Undefined, also behind the
+// Object interface). For these the solver model determines the whole input.
+//
+//  1. the failing query is re-asked for the value of every input term;
+//  2. a Go test that builds these inputs, calls the real function and prints
+//     the outputs is injected with `go test -overlay` (the repository is not
+//     written);
+//  3. the observed outputs are pinned onto the query's symbolic outputs: if
+//     the query is still satisfiable, the clause is false for these inputs
+//     and the outputs of the real code, and the violation is replayed.
+//
+// Anything outside the scope (strings, containers, compiler / VM state) is
+// reported without a failing input; the model stays attached.
+
+type rInput struct {
+	name   string // Go variable name in the harness
+	goExpr string // Go expression building the value
+	decl   string // Go type for the variable declaration ("" = :=)
+	pins   []string
+	isObj  bool // value is a Tengo object (identity matters)
+	term   string
+	kind   int
+}
+
+var scalarObjs = map[string]string{"Int": "int64", "Float": "float64", "Char": "rune", "Bool": "bool", "Undefined": ""}
+
 func tryReplay(e *Engine, o *Obligation, rp *Replay) {
 	rp.Replayed = false
-	rp.Note = "counterexample model attached; no replay harness for this function shape"
+	if o.fv == nil || o.post == nil || (o.Kind != "post" && o.Kind != "refines") {
+		rp.Note = "counterexample model attached; replay covers clause obligations of scalar-valued functions only (kind " + o.Kind + ")"
+		return
+	}
+	fv := o.fv
+	f := fv.top
+	if f.Pkg == nil || len(f.FreeVars) > 0 {
+		rp.Note = "counterexample model attached; no replay harness for closures"
+		return
+	}
+	base := strings.SplitN(o.query(), "(check-sat)", 2)[0]
+	// ---- 1. probe the model for the inputs
+	type probe struct {
+		term string
+		val  string
+	}
+	var probes []*probe
+	ask := func(t string) *probe {
+		p := &probe{term: t}
+		probes = append(probes, p)
+		return p
+	}
+	type inSpec struct {
+		p      *ssa.Parameter
+		v      Val
+		tag    *probe            // interface: dynamic type tag
+		self   *probe            // scalar / whole value
+		fields map[string]*probe // per candidate object type: its Value field
+	}
+	var ins []*inSpec
+	fieldTerm := func(ptr string, tname string) (string, bool) {
+		obj := f.Pkg.Pkg.Scope().Lookup(tname)
+		if obj == nil {
+			return "", false
+		}
+		st, ok := obj.Type().Underlying().(*types.Struct)
+		if !ok {
+			return "", false
+		}
+		for i := 0; i < st.NumFields(); i++ {
+			if n := st.Field(i).Name(); n == "Value" || n == "value" {
+				k, w, srt := kindOf(st.Field(i).Type())
+				if k == KStruct || k == KTuple || k == KStr || k == KSlice {
+					return "", false
+				}
+				h := fv.heapOf(fv.entry, leafKey(st.Field(i).Type()), Val{K: k, W: w, Sort: srt}.sortOf())
+				return "(select " + h.term + " " + lfield(ptr, i) + ")", true
+			}
+		}
+		return "", false
+	}
+	for i, p := range f.Params {
+		if i >= len(fv.paramVals) {
+			rp.Note = "no replay harness for this function shape"
+			return
+		}
+		v := fv.paramVals[i]
+		is := &inSpec{p: p, v: v, fields: map[string]*probe{}}
+		switch v.K {
+		case KBV, KBool, KFP:
+			is.self = ask(v.T)
+		case KLoc:
+			pt, ok := types.Unalias(p.Type()).Underlying().(*types.Pointer)
+			nt, ok2 := pt.Elem().(*types.Named)
+			if !ok || !ok2 {
+				rp.Note = "no replay harness for parameter " + p.Name() + " of type " + p.Type().String()
+				return
+			}
+			if _, isScalar := scalarObjs[nt.Obj().Name()]; !isScalar || nt.Obj().Pkg() != f.Pkg.Pkg {
+				rp.Note = "no replay harness for parameter " + p.Name() + " of type " + p.Type().String()
+				return
+			}
+			if ft, ok := fieldTerm(v.T, nt.Obj().Name()); ok {
+				is.fields[nt.Obj().Name()] = ask(ft)
+			}
+		case KIface:
+			if canonType(p.Type()) != modPath+".Object" {
+				rp.Note = "no replay harness for parameter " + p.Name() + " of type " + p.Type().String()
+				return
+			}
+			is.tag = ask("(itag " + v.T + ")")
+			for tn := range scalarObjs {
+				if ft, ok := fieldTerm("(idat "+v.T+")", tn); ok {
+					is.fields[tn] = ask(ft)
+				}
+			}
+		default:
+			rp.Note = "no replay harness for parameter " + p.Name() + " of type " + p.Type().String()
+			return
+		}
+		ins = append(ins, is)
+	}
+	work := filepath.Join(filepath.Dir(fv.eng.specDir), "work", "replay")
+	os.MkdirAll(work, 0o755)
+	q := base + "(check-sat)\n"
+	for _, p := range probes {
+		q += "(get-value (" + p.term + "))\n"
+	}
+	pf := filepath.Join(work, sanitizeFile(o.ID)+".probe.smt2")
+	os.WriteFile(pf, []byte(q), 0o644)
+	verdict, out, _ := runSolver(solvers[0], pf, 60)
+	if verdict != "sat" {
+		rp.Note = "counterexample model attached; the probe query did not return a model (" + verdict + ")"
+		return
+	}
+	vals := parseGetValues(out)
+	if len(vals) != len(probes) {
+		rp.Note = fmt.Sprintf("counterexample model attached; could not read the model back (%d of %d values)", len(vals), len(probes))
+		return
+	}
+	for i, p := range probes {
+		p.val = vals[i]
+	}
+	// ---- 2. build the harness
+	var b strings.Builder
+	witness := map[string]string{}
+	var inputs []*rInput
+	imports := map[string]bool{"fmt": true, "testing": true}
+	for i, is := range ins {
+		ri := &rInput{name: fmt.Sprintf("in%d", i), term: is.v.T, kind: is.v.K}
+		switch is.v.K {
+		case KBV, KBool, KFP:
+			ge, ok := goScalar(is.self.val, is.p.Type(), f.Pkg.Pkg, imports)
+			if !ok {
+				rp.Note = "could not turn the model value of " + is.p.Name() + " into a Go value: " + is.self.val
+				return
+			}
+			ri.goExpr = ge
+			ri.pins = append(ri.pins, eq(is.self.term, is.self.val))
+		case KLoc, KIface:
+			tn := ""
+			if is.v.K == KLoc {
+				tn = types.Unalias(is.p.Type()).Underlying().(*types.Pointer).Elem().(*types.Named).Obj().Name()
+			} else {
+				tag, err := strconv.Atoi(strings.TrimSpace(is.tag.val))
+				if err != nil || tag < 1 || tag > len(fv.eng.tagTypes) {
+					rp.Note = "counterexample uses a dynamic type outside the replay scope (tag " + is.tag.val + ")"
+					return
+				}
+				tt := fv.eng.tagTypes[tag-1]
+				pt, ok := types.Unalias(tt).Underlying().(*types.Pointer)
+				if !ok {
+					rp.Note = "counterexample uses dynamic type " + tt.String() + " (outside the replay scope)"
+					return
+				}
+				nt, ok := pt.Elem().(*types.Named)
+				if !ok || nt.Obj().Pkg() != f.Pkg.Pkg {
+					rp.Note = "counterexample uses dynamic type " + tt.String() + " (outside the replay scope)"
+					return
+				}
+				tn = nt.Obj().Name()
+				if _, ok := scalarObjs[tn]; !ok {
+					rp.Note = "counterexample uses dynamic type *" + tn + " (outside the replay scope: scalar objects only)"
+					return
+				}
+				ri.pins = append(ri.pins, eq(is.tag.term, is.tag.val))
+			}
+			ri.isObj = true
+			switch tn {
+			case "Undefined":
+				ri.goExpr = "UndefinedValue"
+			default:
+				fp := is.fields[tn]
+				if fp == nil {
+					rp.Note = "no Value field probe for *" + tn
+					return
+				}
+				obj := f.Pkg.Pkg.Scope().Lookup(tn).Type().Underlying().(*types.Struct)
+				fname, ftype := "", types.Type(nil)
+				for k := 0; k < obj.NumFields(); k++ {
+					if n := obj.Field(k).Name(); n == "Value" || n == "value" {
+						fname, ftype = n, obj.Field(k).Type()
+					}
+				}
+				ge, ok := goScalar(fp.val, ftype, f.Pkg.Pkg, imports)
+				if !ok {
+					rp.Note = "could not turn the model value of " + is.p.Name() + "." + fname + " into a Go value: " + fp.val
+					return
+				}
+				ri.goExpr = fmt.Sprintf("&%s{%s: %s}", tn, fname, ge)
+				if tn == "Bool" {
+					// the engine's Bool objects are the two sentinels
+					ri.goExpr = "map[bool]*Bool{true: TrueValue, false: FalseValue}[" + ge + "]"
+				}
+				ri.pins = append(ri.pins, eq(fp.term, fp.val))
+			}
+			if is.v.K == KIface {
+				ri.decl = "Object"
+			}
+		}
+		witness[is.p.Name()] = ri.goExpr
+		inputs = append(inputs, ri)
+	}
+	rp.Witness = witness
+	sig := f.Signature
+	call := ""
+	args := []string{}
+	start := 0
+	if sig.Recv() != nil {
+		start = 1
+	}
+	for i := start; i < len(inputs); i++ {
+		a := inputs[i].name
+		if sig.Variadic() && i == len(inputs)-1 {
+			rp.Note = "no replay harness for variadic functions"
+			return
+		}
+		args = append(args, a)
+	}
+	if sig.Recv() != nil {
+		call = fmt.Sprintf("in0.%s(%s)", f.Name(), strings.Join(args, ", "))
+	} else {
+		call = fmt.Sprintf("%s(%s)", f.Name(), strings.Join(args, ", "))
+	}
+	nres := sig.Results().Len()
+	var lhs []string
+	for i := 0; i < nres; i++ {
+		lhs = append(lhs, fmt.Sprintf("r%d", i))
+	}
+	fmt.Fprintf(&b, "package %s\n\nimport (\n", f.Pkg.Pkg.Name())
+	body := &strings.Builder{}
+	for _, ri := range inputs {
+		if ri.decl != "" {
+			fmt.Fprintf(body, "\tvar %s %s = %s\n", ri.name, ri.decl, ri.goExpr)
+		} else {
+			fmt.Fprintf(body, "\t%s := %s\n", ri.name, ri.goExpr)
+		}
+	}
+	fmt.Fprintf(body, "\tdefer func() {\n\t\tif p := recover(); p != nil {\n\t\t\tfmt.Printf(\"TGVC panic %%v\\n\", p)\n\t\t}\n\t}()\n")
+	if nres > 0 {
+		fmt.Fprintf(body, "\t%s := %s\n", strings.Join(lhs, ", "), call)
+	} else {
+		fmt.Fprintf(body, "\t%s\n", call)
+	}
+	var objNames []string
+	for _, ri := range inputs {
+		if ri.isObj {
+			objNames = append(objNames, ri.name)
+		}
+	}
+	for i := 0; i < nres; i++ {
+		fmt.Fprintf(body, "\tfmt.Printf(\"TGVC r%d %%s\\n\", tgvcDescribe(r%d, []interface{}{%s}))\n", i, i, strings.Join(objNames, ", "))
+	}
+	for _, ri := range inputs {
+		_ = ri
+	}
+	imports["math"] = true
+	var imps []string
+	for k := range imports {
+		imps = append(imps, k)
+	}
+	sortStrings(imps)
+	for _, k := range imps {
+		fmt.Fprintf(&b, "\t%q\n", k)
+	}
+	b.WriteString(")\n\nvar _ = math.Float64bits\n\n")
+	b.WriteString(describeSrc(f.Pkg.Pkg.Path() == modPath))
+	fmt.Fprintf(&b, "\nfunc TestTgvcReplay(t *testing.T) {\n%s}\n", body.String())
+	rp.Harness = b.String()
+	// ---- run it against the real package
+	pkgDir := filepath.Join(fv.eng.repo, strings.TrimPrefix(strings.TrimPrefix(f.Pkg.Pkg.Path(), modPath), "/"))
+	hfile := filepath.Join(work, sanitizeFile(o.ID)+"_test.go")
+	os.WriteFile(hfile, []byte(rp.Harness), 0o644)
+	ov := map[string]map[string]string{"Replace": {filepath.Join(pkgDir, "zz_tgvc_replay_test.go"): hfile}}
+	ovb, _ := json.Marshal(ov)
+	ovf := filepath.Join(work, sanitizeFile(o.ID)+".overlay.json")
+	os.WriteFile(ovf, ovb, 0o644)
+	cmd := exec.Command("go", "test", "-overlay", ovf, "-vet=off", "-v", "-count=1", "-timeout", "60s", "-run", "^TestTgvcReplay$", ".")
+	cmd.Dir = pkgDir
+	cmd.Env = append(os.Environ(), "GOFLAGS=-mod=mod", "GOPROXY=off", "GOSUMDB=off", "GOTOOLCHAIN=local")
+	outb, _ := cmd.CombinedOutput()
+	var obs []string
+	for _, l := range strings.Split(string(outb), "\n") {
+		if strings.HasPrefix(l, "TGVC ") {
+			obs = append(obs, strings.TrimPrefix(l, "TGVC "))
+		}
+	}
+	rp.Observed = strings.Join(obs, "\n")
+	if len(obs) == 0 {
+		rp.Note = "the replay harness did not run: " + trunc(string(outb), 600)
+		return
+	}
+	if strings.HasPrefix(obs[0], "panic ") {
+		rp.Replayed = true
+		rp.Note = "the real code panics on the counterexample input (" + obs[0] + "); the clause cannot hold"
+		return
+	}
+	// ---- 3. pin inputs and observed outputs onto the failing query
+	pins := []string{}
+	for _, ri := range inputs {
+		pins = append(pins, ri.pins...)
+	}
+	mark := len(fv.lines)
+	for i := 0; i < nres && i < len(o.results); i++ {
+		var d string
+		for _, l := range obs {
+			if strings.HasPrefix(l, fmt.Sprintf("r%d ", i)) {
+				d = strings.TrimPrefix(l, fmt.Sprintf("r%d ", i))
+			}
+		}
+		ps, ok := pinResult(fv, o, o.results[i], d, inputs, f)
+		if !ok {
+			rp.Note = "observed output not expressible for the oracle query: " + d
+			return
+		}
+		pins = append(pins, ps...)
+	}
+	extra := ""
+	for _, l := range fv.lines[mark:] {
+		extra += l.text + "\n"
+	}
+	// the goal line is the last assertion of base: keep it last
+	gi := strings.LastIndex(base, "(assert (not ")
+	q2 := base[:gi] + extra
+	for _, p := range pins {
+		q2 += "(assert " + p + ")\n"
+	}
+	q2 += base[gi:] + "(check-sat)\n"
+	of := filepath.Join(work, sanitizeFile(o.ID)+".oracle.smt2")
+	os.WriteFile(of, []byte(q2), 0o644)
+	v2, _, _ := runSolver(solvers[0], of, 60)
+	switch v2 {
+	case "sat":
+		rp.Replayed = true
+		rp.Note = "replayed: on this input the real code returns the observed values, for which the clause is false (oracle query " + of + " is satisfiable with inputs and outputs pinned)"
+	case "unsat":
+		rp.Note = "not replayed: with the real outputs pinned the clause holds for this input (the model does not correspond to a run of the real code)"
+	default:
+		rp.Note = "not replayed: oracle query gave " + v2
+	}
+}
+
+// pinResult turns the harness's description of one result into assertions
+// over the symbolic result value.
+func pinResult(fv *FnVC, o *Obligation, r Val, d string, inputs []*rInput, f *ssa.Function) ([]string, bool) {
+	fs := strings.SplitN(d, ":", 2)
+	switch r.K {
+	case KBool:
+		if fs[0] == "bool" && len(fs) == 2 {
+			return []string{eq(r.T, fs[1])}, true
+		}
+	case KBV:
+		if fs[0] == "int" && len(fs) == 2 {
+			n, err := strconv.ParseInt(fs[1], 10, 64)
+			if err == nil {
+				return []string{eq(r.T, bvConst(r.W, uint64(n)))}, true
+			}
+		}
+	case KIface:
+		switch fs[0] {
+		case "nil":
+			return []string{eq(r.T, "niliface")}, true
+		case "same":
+			i, err := strconv.Atoi(fs[1])
+			k := -1
+			for _, ri := range inputs {
+				if ri.isObj {
+					k++
+					if err == nil && k == i {
+						if ri.kind == KIface {
+							return []string{eq(r.T, ri.term)}, true
+						}
+						return []string{eq("(idat "+r.T+")", ri.term), not(eq("(itag "+r.T+")", "0"))}, true
+					}
+				}
+			}
+		case "sentinel":
+			ce := &cenv{fv: fv, vars: map[string]Val{}, st: o.post, pkg: f.Pkg.Pkg, where: "replay"}
+			sv := ce.eval(fs[1])
+			if ce.err != nil {
+				return nil, false
+			}
+			if sv.K == KLoc {
+				return []string{eq("(idat "+r.T+")", sv.T), not(eq("(itag "+r.T+")", "0"))}, true
+			}
+			if sv.K == KIface {
+				return []string{eq(r.T, sv.T)}, true
+			}
+		case "obj":
+			// obj:<Type>:<value>
+			p := strings.SplitN(fs[1], ":", 2)
+			tn := p[0]
+			obj := f.Pkg.Pkg.Scope().Lookup(tn)
+			if obj == nil {
+				return nil, false
+			}
+			tag := fv.eng.tagOf(types.NewPointer(obj.Type()))
+			pins := []string{eq("(itag "+r.T+")", fmt.Sprint(tag)), "(>= (root (idat " + r.T + ")) " + fv.allocEntry + ")"}
+			st, _ := obj.Type().Underlying().(*types.Struct)
+			for i := 0; st != nil && i < st.NumFields(); i++ {
+				if n := st.Field(i).Name(); n == "Value" || n == "value" {
+					k, w, srt := kindOf(st.Field(i).Type())
+					h := fv.heapOf(o.post, leafKey(st.Field(i).Type()), Val{K: k, W: w, Sort: srt}.sortOf())
+					sel := "(select " + h.term + " " + lfield("(idat "+r.T+")", i) + ")"
+					vt, ok := smtScalar(p[1], k, w)
+					if !ok {
+						return nil, false
+					}
+					pins = append(pins, eq(sel, vt))
+				}
+			}
+			return pins, true
+		case "error":
+			// an error that is not a known sentinel: non-nil, not any sentinel the clause may name
+			return []string{not(eq(r.T, "niliface"))}, true
+		}
+	}
+	return nil, false
+}
+
+func smtScalar(s string, k int, w int) (string, bool) {
+	switch k {
+	case KBV:
+		n, err := strconv.ParseInt(s, 10, 64)
+		if err != nil {
+			return "", false
+		}
+		return bvConst(w, uint64(n)), true
+	case KBool:
+		return s, s == "true" || s == "false"
+	case KFP:
+		bits, err := strconv.ParseUint(s, 10, 64)
+		if err != nil {
+			return "", false
+		}
+		if math.IsNaN(math.Float64frombits(bits)) {
+			return "(_ NaN 11 53)", true
+		}
+		return fmt.Sprintf("((_ to_fp 11 53) %s)", bvConst(64, bits)), true
+	}
+	return "", false
+}
+
+// goScalar renders a model value as a Go expression of type t.
+func goScalar(v string, t types.Type, pkg *types.Package, imports map[string]bool) (string, bool) {
+	v = strings.TrimSpace(v)
+	tn := types.TypeString(t, func(p *types.Package) string {
+		if p == pkg {
+			return ""
+		}
+		imports[p.Path()] = true
+		return p.Name()
+	})
+	switch {
+	case v == "true" || v == "false":
+		return fmt.Sprintf("%s(%s)", tn, v), true
+	case strings.HasPrefix(v, "#x") || strings.HasPrefix(v, "#b"):
+		var n uint64
+		var bitsN int
+		var err error
+		if strings.HasPrefix(v, "#x") {
+			n, err = strconv.ParseUint(v[2:], 16, 64)
+			bitsN = 4 * (len(v) - 2)
+		} else {
+			n, err = strconv.ParseUint(v[2:], 2, 64)
+			bitsN = len(v) - 2
+		}
+		if err != nil {
+			return "", false
+		}
+		if b, ok := t.Underlying().(*types.Basic); ok && b.Info()&types.IsUnsigned == 0 {
+			// signed: sign-extend from the value's width
+			sv := int64(n)
+			if bitsN < 64 && n&(1<<uint(bitsN-1)) != 0 {
+				sv = int64(n) - (1 << uint(bitsN))
+			}
+			if sv == math.MinInt64 {
+				return fmt.Sprintf("%s(math.MinInt64)", tn), true
+			}
+			return fmt.Sprintf("%s(%d)", tn, sv), true
+		}
+		return fmt.Sprintf("%s(%d)", tn, n), true
+	case strings.HasPrefix(v, "(fp "):
+		m := regexp.MustCompile(`\(fp #b([01]) #b([01]+) #x([0-9a-f]+)\)`).FindStringSubmatch(v)
+		if m == nil {
+			m2 := regexp.MustCompile(`\(fp #b([01]) #b([01]+) #b([01]+)\)`).FindStringSubmatch(v)
+			if m2 == nil {
+				return "", false
+			}
+			bits, _ := strconv.ParseUint(m2[1]+m2[2]+m2[3], 2, 64)
+			return fmt.Sprintf("%s(math.Float64frombits(%d))", tn, bits), true
+		}
+		sign, _ := strconv.ParseUint(m[1], 2, 64)
+		exp, _ := strconv.ParseUint(m[2], 2, 64)
+		man, _ := strconv.ParseUint(m[3], 16, 64)
+		bits := sign<<63 | exp<<52 | man
+		return fmt.Sprintf("%s(math.Float64frombits(%d))", tn, bits), true
+	case strings.HasPrefix(v, "(_ NaN"):
+		return fmt.Sprintf("%s(math.NaN())", tn), true
+	case strings.HasPrefix(v, "(_ +oo"):
+		return fmt.Sprintf("%s(math.Inf(1))", tn), true
+	case strings.HasPrefix(v, "(_ -oo"):
+		return fmt.Sprintf("%s(math.Inf(-1))", tn), true
+	case strings.HasPrefix(v, "(_ +zero"):
+		return fmt.Sprintf("%s(0)", tn), true
+	case strings.HasPrefix(v, "(_ -zero"):
+		return fmt.Sprintf("%s(math.Copysign(0, -1))", tn), true
+	}
+	return "", false
+}
+
+// parseGetValues extracts, in order, the value of each `(get-value (t))` answer.
+func parseGetValues(out string) []string {
+	var vals []string
+	i := strings.Index(out, "\n") // skip the "sat" line
+	if i < 0 {
+		return nil
+	}
+	s := out[i+1:]
+	for {
+		j := strings.Index(s, "((")
+		if j < 0 {
+			break
+		}
+		// s[j:] starts a "((term value))" answer: find its end
+		depth, k := 0, j
+		for ; k < len(s); k++ {
+			if s[k] == '(' {
+				depth++
+			} else if s[k] == ')' {
+				depth--
+				if depth == 0 {
+					break
+				}
+			}
+		}
+		if depth != 0 {
+			break
+		}
+		inner := strings.TrimSpace(s[j+2 : k-1]) // "term value"
+		// the value is the last top-level s-expression of inner
+		d, cut := 0, -1
+		for p := len(inner) - 1; p >= 0; p-- {
+			c := inner[p]
+			if c == ')' {
+				d++
+			} else if c == '(' {
+				d--
+			}
+			if d == 0 && (c == ' ' || c == '\n' || c == '\t') {
+				cut = p
+				break
+			}
+			if d == 0 && c == '(' {
+				cut = p - 1
+				break
+			}
+		}
+		if cut < 0 {
+			break
+		}
+		vals = append(vals, strings.Join(strings.Fields(inner[cut+1:]), " "))
+		s = s[k+1:]
+	}
+	return vals
+}
+
+func sortStrings(a []string) {
+	for i := 1; i < len(a); i++ {
+		for j := i; j > 0 && a[j] < a[j-1]; j-- {
+			a[j], a[j-1] = a[j-1], a[j]
+		}
+	}
+}
+
+// describeSrc is the Go source of the result printer used by the harness.
+func describeSrc(rootPkg bool) string {
+	if !rootPkg {
+		return `func tgvcDescribe(x interface{}, ins []interface{}) string { return fmt.Sprintf("other:%T", x) }
+`
+	}
+	return `func tgvcDescribe(x interface{}, ins []interface{}) string {
+	switch v := x.(type) {
+	case nil:
+		return "nil"
+	case bool:
+		return fmt.Sprintf("bool:%v", v)
+	case int:
+		return fmt.Sprintf("int:%d", v)
+	case int64:
+		return fmt.Sprintf("int:%d", v)
+	case error:
+		for n, s := range map[string]error{"ErrInvalidOperator": ErrInvalidOperator, "ErrWrongNumArguments": ErrWrongNumArguments,
+			"ErrIndexOutOfBounds": ErrIndexOutOfBounds, "ErrInvalidIndexType": ErrInvalidIndexType, "ErrNotIndexable": ErrNotIndexable,
+			"ErrStringLimit": ErrStringLimit, "ErrBytesLimit": ErrBytesLimit, "ErrObjectAllocLimit": ErrObjectAllocLimit, "ErrStackOverflow": ErrStackOverflow} {
+			if v == s {
+				return "sentinel:" + n
+			}
+		}
+		return "error:" + v.Error()
+	case Object:
+		if v == nil {
+			return "nil"
+		}
+		for i, in := range ins {
+			if o, ok := in.(Object); ok && o == v {
+				return fmt.Sprintf("same:%d", i)
+			}
+		}
+		switch o := v.(type) {
+		case *Undefined:
+			if o == UndefinedValue {
+				return "sentinel:UndefinedValue"
+			}
+		case *Bool:
+			if o == TrueValue {
+				return "sentinel:TrueValue"
+			}
+			if o == FalseValue {
+				return "sentinel:FalseValue"
+			}
+			return fmt.Sprintf("obj:Bool:%v", !o.IsFalsy())
+		case *Int:
+			return fmt.Sprintf("obj:Int:%d", o.Value)
+		case *Char:
+			return fmt.Sprintf("obj:Char:%d", o.Value)
+		case *Float:
+			return fmt.Sprintf("obj:Float:%d", math.Float64bits(o.Value))
+		}
+		return fmt.Sprintf("other:%T", v)
+	}
+	return fmt.Sprintf("other:%T", x)
+}
+`
+}
+
+// cmdReplay re-runs the stored harness of a replay file against the current
+// working tree of the repository: exit 1 if the real code still produces the
+// recorded violating outputs, 0 if it does not, 2 if the file has no harness.
+func cmdReplay(args []string) int {
+	repo := "/repo"
+	var file string
+	for i := 0; i < len(args); i++ {
+		if args[i] == "--repo" && i+1 < len(args) {
+			repo = args[i+1]
+			i++
+		} else {
+			file = args[i]
+		}
+	}
+	b, err := os.ReadFile(file)
+	if err != nil {
+		fmt.Fprintln(os.Stderr, err)
+		return 2
+	}
+	var rp Replay
+	if err := json.Unmarshal(b, &rp); err != nil {
+		fmt.Fprintln(os.Stderr, err)
+		return 2
+	}
+	fmt.Printf("obligation: %s\nclause: %s\n", rp.Obligation, rp.Clause)
+	if rp.Harness == "" {
+		fmt.Println("no failing input recorded for this violation:", rp.Note)
+		if rp.SMTFile != "" {
+			fmt.Println("query:", rp.SMTFile, "verdict:", rp.Verdict)
+		}
+		return 2
+	}
+	m := regexp.MustCompile(`(?m)^package (\w+)`).FindStringSubmatch(rp.Harness)
+	dir := repo
+	if m != nil && m[1] != "tengo" {
+		dir = filepath.Join(repo, m[1])
+	}
+	tmp, _ := os.MkdirTemp("", "tgvc-replay")
+	defer os.RemoveAll(tmp)
+	hf := filepath.Join(tmp, "zz_tgvc_replay_test.go")
+	os.WriteFile(hf, []byte(rp.Harness), 0o644)
+	ov, _ := json.Marshal(map[string]map[string]string{"Replace": {filepath.Join(dir, "zz_tgvc_replay_test.go"): hf}})
+	ovf := filepath.Join(tmp, "overlay.json")
+	os.WriteFile(ovf, ov, 0o644)
+	cmd := exec.Command("go", "test", "-overlay", ovf, "-vet=off", "-v", "-count=1", "-timeout", "60s", "-run", "^TestTgvcReplay$", ".")
+	cmd.Dir = dir
+	cmd.Env = append(os.Environ(), "GOFLAGS=-mod=mod", "GOPROXY=off", "GOSUMDB=off", "GOTOOLCHAIN=local")
+	out, _ := cmd.CombinedOutput()
+	var obs []string
+	for _, l := range strings.Split(string(out), "\n") {
+		if strings.HasPrefix(l, "TGVC ") {
+			obs = append(obs, strings.TrimPrefix(l, "TGVC "))
+		}
+	}
+	fmt.Printf("input: %v\nrecorded outputs:\n%s\noutputs now:\n%s\n", rp.Witness, rp.Observed, strings.Join(obs, "\n"))
+	if len(obs) == 0 {
+		fmt.Println("harness did not run:", trunc(string(out), 800))
+		return 2
+	}
+	if strings.Join(obs, "\n") == rp.Observed {
+		fmt.Println("the real code still produces the violating outputs")
+		return 1
+	}
+	fmt.Println("the real code no longer produces the recorded outputs")
+	return 0
 }
